@@ -50,7 +50,7 @@ NAdl(el, xyz, t, i, s, j) ==
 Block(f(_, _)) == <<<<f(1, 1), f(1, 2), f(1, 3)>>, <<f(2, 1), f(2, 2), f(2, 3)>>, <<f(3, 1), f(3, 2), f(3, 3)>>>>
 BlockSum(b) == b[1][1] + b[1][2] + b[1][3] + b[2][1] + b[2][2] + b[2][3] + b[3][1] + b[3][2] + b[3][3]
 
-\* edge opposite to local vertex i (0-based cyclic: e_i = p_{i+2} - p_{i+1})
+\* edge opposite to local vertex i (i in 1..3, cyclic: e_i = p_{i+2} - p_{i+1})
 EdgeOpp(el, xyz, e, i) == VSub(P(el, xyz, e, ((i + 1) % 3) + 1), P(el, xyz, e, (i % 3) + 1))
 EdgeDots(el, xyz, t, s) ==
     LET f(i, j) == VDot(EdgeOpp(el, xyz, t, i), EdgeOpp(el, xyz, s, j)) IN Block(f)
